@@ -1,4 +1,5 @@
 import Holpy.C05.IntervalModel
+import Holpy.C05.Props
 import Holpy.C05.ProofsTval
 import Holpy.C05.PropsInterval
 import Holpy.C05.ProofsSigma
@@ -73,6 +74,55 @@ theorem const_inequality_sound (P : Prims) (F : RealFns K) (hP : PrimsOK P F) (h
     · cases hdec
       exact interval_accept_soundK r _ _ i1 i2 e1 e2 hok
   · cases hm
+
+/-- `const_inequality` on nat sides (full model): both sides are evaluated by `nat_eval`, and the
+accepted relation holds between their typed denotations (truncated subtraction). -/
+theorem const_inequality_nat_sound (P : Prims) (ρ : Nat → Val) (goal : AExpr) (th : Thm) (r : Rel) (a b : AExpr)
+    (hrel : relOf goal = some (r, a, b)) (hta : typeOf a = .nat) :
+    acceptConstInequality P goal = .ok th →
+      th.prop = goal ∧ ∃ m n : Nat, den ρ a = some (.n m) ∧ den ρ b = some (.n n) ∧ r.holds (m : Rat) (n : Rat) := by
+  intro h
+  obtain ⟨hm, hw, _⟩ := checked_ok h
+  simp only [constInequalityFull, hrel] at hm
+  have hnat : (typeOf a == Ty.nat) = true := by simp [hta]
+  simp only [hnat, if_true] at hm
+  obtain ⟨m, hma, hm⟩ := bind_ok hm
+  obtain ⟨n, hnb, hm⟩ := bind_ok hm
+  split at hm
+  · rename_i hok
+    cases hm
+    have hsides : wt a = true ∧ wt b = true ∧ typeOf b = .nat := by
+      cases goal with
+      | eq T x y =>
+        simp [relOf] at hrel
+        obtain ⟨_, rfl, rfl⟩ := hrel
+        obtain ⟨_, h1, h2, h3⟩ := wt_eq_sides hw hta
+        exact ⟨h1, h2, h3⟩
+      | cmp op T x y =>
+        simp [relOf] at hrel
+        obtain ⟨_, rfl, rfl⟩ := hrel
+        obtain ⟨_, h1, h2, h3⟩ := wt_cmp_sides hw hta
+        exact ⟨h1, h2, h3⟩
+      | neg g =>
+        cases g with
+        | eq T x y =>
+          simp [relOf] at hrel
+          obtain ⟨_, rfl, rfl⟩ := hrel
+          obtain ⟨_, h1, h2, h3⟩ := wt_eq_sides (wt_neg hw) hta
+          exact ⟨h1, h2, h3⟩
+        | _ => simp [relOf] at hrel
+      | _ => simp [relOf] at hrel
+    obtain ⟨hwa, hwb, htb⟩ := hsides
+    refine ⟨rfl, m, n, natEval_sound' ρ a m hma hta hwa, natEval_sound' ρ b n hnb htb hwb, ?_⟩
+    exact interval_accept_sound r (m : Rat) (n : Rat) m m n n ⟨le_refl _, le_refl _⟩ ⟨le_refl _, le_refl _⟩ hok
+  · cases hm
+
+/- (4::nat) - 5 ≤ 0 is accepted (truncated subtraction), (4::nat) - 5 < 0 is not -/
+example :
+    let P := tablePrims [] (3, 4)
+    (acceptConstInequality P (.cmp .le .nat (.minus .nat (.ofNat .nat (.bit0 (.bit0 (.one .nat)))) (.ofNat .nat (.bit1 (.bit0 (.one .nat))))) (.zero .nat))).isOk = true ∧
+    (acceptConstInequality P (.cmp .lt .nat (.minus .nat (.ofNat .nat (.bit0 (.bit0 (.one .nat)))) (.ofNat .nat (.bit1 (.bit0 (.one .nat))))) (.zero .nat))).isOk = false := by
+  constructor <;> decide +kernel
 
 /- `sqrt 2 + 1 > 2` is not decided by `real_eval`; with primitives that enclose, acceptance gives the
 inequality between the values (for any field, primitives and functions meeting the hypotheses; over ℚ
